@@ -114,6 +114,11 @@ func classifyCrashW(stderr string, exit string, inputLen int, memKB uint64) (sig
 	for _, envErr := range []string{"pthread_create failed", "failed to create new OS thread", "newosproc", "Resource temporarily unavailable"} {
 		if strings.Contains(stderr, envErr) {
 			// the operating system refused a thread: says nothing about the code under test
+			if memKB > 0 && loc == nil && allocBound(inputLen) <= memKB*1024 {
+				// under the data-segment cap a refused thread means the memory was used up: treated like an
+				// out-of-memory death at an unknown site, to be confirmed with the input alone
+				return "alloc-amplification/unknown-site", "child process could not create a thread under the memory cap (" + envErr + ")", trunc(stderr, 300), true
+			}
 			return "", "child process could not create a thread (" + envErr + ")", trunc(stderr, 300), false
 		}
 	}
@@ -175,11 +180,12 @@ func runJob(j job) jobResult {
 	base := filepath.Join(outDir, fmt.Sprintf("job%03d-%s", seq, j.name))
 	resume, resumeIdx := 0, 0
 	expensive := map[int]int{}
+	expensiveIdx := map[int][]int{}
 	for attempt := 0; attempt < 600; attempt++ {
 		if resume >= len(j.cases) {
 			return res
 		}
-		sp := childSpec{Mode: j.mode, Cases: j.cases, ResumeCase: resume, ResumeIdx: resumeIdx, ResumeExpensive: expensive[resume], MemKB: j.memKB,
+		sp := childSpec{Mode: j.mode, Cases: j.cases, ResumeCase: resume, ResumeIdx: resumeIdx, ResumeExpensive: expensive[resume], ResumeExpensiveIdx: expensiveIdx[resume], MemKB: j.memKB,
 			Progress: fmt.Sprintf("%s.a%d.progress", base, attempt), Result: fmt.Sprintf("%s.a%d.result", base, attempt),
 			BlobDir: outDir, Seed: hk.Seed(), Thorough: hk.Thorough()}
 		specPath := fmt.Sprintf("%s.a%d.spec.json", base, attempt)
@@ -250,7 +256,18 @@ func runJob(j job) jobResult {
 			if werr != nil {
 				exit = werr.Error()
 			}
-			sig, what, excerpt := classifyCrash(string(stderr), exit, n, j.memKB)
+			sig, what, excerpt, weak := classifyCrashW(string(stderr), exit, n, j.memKB)
+			if sig != "" && weak {
+				// out of memory at an ordinary allocation: the input counts only if it does the same to a fresh child
+				sig2, what2, excerpt2 := confirmAlone(j, ci, idx, base, attempt)
+				res.starts++
+				if sig2 == "" || !strings.HasPrefix(sig2, "alloc-") {
+					sig = ""
+					what += " [not reproduced with this input alone in a fresh child: " + trunc(what2, 120) + "]"
+				} else {
+					sig, what, excerpt = sig2, what2+" [confirmed alone in a fresh child]", excerpt2
+				}
+			}
 			if sig == "" {
 				res.incon[cs.ID] = "child died, not attributable to the input (memory cap hit below the bound of the input, or no Go panic/fatal error): " + trunc(what, 200)
 				resume, resumeIdx = ci, idx+1
@@ -267,10 +284,60 @@ func runJob(j job) jobResult {
 		resume, resumeIdx = ci, idx+1
 		if !timedOut {
 			expensive[ci]++
+			expensiveIdx[ci] = append(expensiveIdx[ci], idx)
 		}
 	}
 	res.incon[j.cases[resume].ID] = "too many child restarts"
 	return res
+}
+
+// confirmAlone runs one input of a case alone in a fresh child and classifies what happens to that child
+func confirmAlone(j job, ci, idx int, base string, attempt int) (sig, what, excerpt string) {
+	cs := j.cases[ci]
+	cs.Only = idx
+	pre := fmt.Sprintf("%s.a%d.confirm", base, attempt)
+	sp := childSpec{Mode: j.mode, Cases: []caseSpec{cs}, MemKB: j.memKB, Progress: pre + ".progress", Result: pre + ".result", BlobDir: outDir, Seed: hk.Seed(), Thorough: hk.Thorough()}
+	b, _ := json.Marshal(sp)
+	os.WriteFile(pre+".spec.json", b, 0o644)
+	se, _ := os.Create(pre + ".stderr")
+	cmd := exec.Command(binPath())
+	cmd.Env = append(os.Environ(), "C16_CHILD_SPEC="+pre+".spec.json", "GOTRACEBACK=all")
+	if j.procs > 0 {
+		cmd.Env = append(cmd.Env, fmt.Sprintf("GOMAXPROCS=%d", j.procs))
+	}
+	cmd.Stderr = se
+	cmd.SysProcAttr = &syscall.SysProcAttr{Pdeathsig: syscall.SIGKILL}
+	if err := cmd.Start(); err != nil {
+		return "", "cannot start confirmation child", ""
+	}
+	done := make(chan error, 1)
+	go func() { done <- cmd.Wait() }()
+	var werr error
+	select {
+	case werr = <-done:
+	case <-time.After(j.wall):
+		cmd.Process.Signal(syscall.SIGKILL)
+		<-done
+		se.Close()
+		return "", "confirmation child: watchdog", ""
+	}
+	se.Close()
+	v, _, finished := readRecords(sp.Result)
+	for _, x := range v {
+		if x.Sig != "" {
+			return x.Sig, x.What, ""
+		}
+	}
+	if finished {
+		return "", "the input alone is handled without a violation", ""
+	}
+	stderr, _ := os.ReadFile(pre + ".stderr")
+	exit := "exit"
+	if werr != nil {
+		exit = werr.Error()
+	}
+	_, _, n, _, _ := lastProgress(sp.Progress)
+	return classifyCrash(string(stderr), exit, n, j.memKB)
 }
 
 // parent ------------------------------------------------------------------------------------
@@ -323,7 +390,7 @@ func main() {
 	hk.Rule("case = (target, option set, mutation class, corpus item or batch); enumerative classes (truncation at every offset; every 1/2/4-byte window overwritten with boundary values up to 2^32-1; every byte replaced by every EDF type tag) are complete per valid encoding, random classes (bit flips, multi-edits, splices, unknown cache ids, random type descriptors with nested arrays/maps/slices, PRNG bytes) are functions of (seed, case id, index); handshake: message k of a real Start/Accept/Join exchange replaced by its mutation; live: recorded valid frames mutated (frame length 0..7 and > max, truncation with fixed-up length, body edits, compression envelopes with false sizes, envelope chains) and written on an authenticated raw link. A case is non-trivial iff at least one of its inputs was parsed past the first field (decode succeeded, or failed with an error class other than unknown-type/empty input; handshake: the mutated message was read by the peer under test; live: the frame reached the receive queue handler or the length check of the reader). Distinct = target x class x most frequent non-trivial outcome class.")
 	hk.Assume("out of proportion = more than 64 MiB + 4096 x input bytes of cumulative heap allocation during the call (runtime/metrics /gc/heap/allocs:bytes), or the child dying of out-of-memory under RLIMIT_AS; hanging = more than 30 s of process CPU time inside one call (rusage)")
 	hk.Assume("inputs that begin with a type descriptor whose array lengths multiply to more than 64 MiB of element storage (a static property of the input bytes) are executed only 2 times per case, the rest is counted as skipped: on a tree that allocates by the declared array length each of them costs a child process")
-	hk.Assume("a case stops executing inputs after 2 expensive violations (child crash, CPU hang, allocation out of proportion: each costs a child process or seconds of page zeroing); the remaining inputs of that case are counted as not executed. Without such violations every input is executed")
+	hk.Assume("a case stops executing inputs after 3 expensive violations (5 for the enumerative classes, where only the inputs that modify the same bytes as an expensive input are skipped) (child crash, CPU hang, allocation out of proportion: each costs a child process or seconds of page zeroing); the remaining inputs of that case are counted as not executed. Without such violations every input is executed")
 	hk.Assume("a panic recovered inside edf.Decode / the receive queue handler and turned into an error / a closed connection satisfies the property; such recoveries are counted, not reported")
 	hk.Assume("value equality after re-encoding: same dynamic type and content, floats by bits, errors by text, nil and empty containers not distinguished, time.Time by instant and zone offset")
 
@@ -387,6 +454,12 @@ func main() {
 					a := acc[g.Case]
 					if a == nil {
 						continue
+					}
+					if g.Outcomes == nil {
+						g.Outcomes = map[string]int64{}
+					}
+					if g.Extra == nil {
+						g.Extra = map[string]int64{}
 					}
 					if !a.have {
 						a.g, a.have = g, true
@@ -513,7 +586,7 @@ func main() {
 		hk.Stat("outcome/"+k, outcomeTotals[k])
 	}
 	hk.Stat("child_process_starts", starts)
-	hk.Stat("inputs_not_executed_after_2_expensive_violations_in_their_case", notExecuted)
+	hk.Stat("inputs_not_executed_because_of_expensive_violations_in_their_case", notExecuted)
 	hk.Stat("inputs_skipped_as_predicted_alloc_bombs_beyond_2_per_case", skippedBombs)
 	hk.Stat("panics_recovered_inside_decode", recovered)
 	hk.StatMax("max_alloc_bytes_in_one_decode_call_without_violation_or_with", maxAlloc)
